@@ -174,6 +174,7 @@ type Sched struct {
 	finalRan  bool
 	mutexes   map[*Mutex]struct{}
 	stuckSites []string
+	inline     bool
 }
 
 // Run executes body as task 0 inside a fresh synctest bubble under a new
@@ -226,6 +227,39 @@ func Run(t *testing.T, cfg Config, body func(s *Sched), final func(s *Sched)) (r
 		}
 		s.teardown()
 	})
+	return res
+}
+
+// RunInline executes body on the calling goroutine without a scheduler or a
+// bubble: for engines whose simulated parties run strictly one after another
+// (writer node, pipe, reader node), where the only nondeterminism is what the
+// tape decides.  Hooks in instrumented code stay pass-through.
+func RunInline(cfg Config, body func(s *Sched)) (res *Result) {
+	if cfg.Tape == nil {
+		cfg.Tape = NewTape(1)
+	}
+	s := &Sched{
+		byGoid:  map[uint64]*Task{},
+		tape:    cfg.Tape,
+		cfg:     cfg,
+		probes:  map[string]int{},
+		faults:  map[string]int{},
+		mutexes: map[*Mutex]struct{}{},
+		thash:   14695981039346656037,
+		inline:  true,
+		start:   time.Now(),
+	}
+	res = &Result{}
+	defer func() {
+		if r := recover(); r != nil {
+			st := string(stackOf())
+			if s.verdict == nil {
+				s.verdict = &Verdict{Oracle: "panic", Site: siteFromStack(st), Detail: fmt.Sprint(r) + "\n" + trimStack(st)}
+			}
+		}
+		s.fill(res)
+	}()
+	body(s)
 	return res
 }
 
@@ -620,7 +654,7 @@ func (s *Sched) teardown() {
 // task, that task never resumes.
 func (s *Sched) Fail(oracle, site, detail string) {
 	s.failLocked(&Verdict{Oracle: oracle, Site: site, Detail: detail})
-	if s.stopping {
+	if s.stopping || s.inline {
 		return
 	}
 	g := goid()
